@@ -53,3 +53,10 @@ reg('C08', 'runtime monitoring: exception sanitizer + CPU/step budgets at the qu
     'escaping exception other than TypeError for a non-Tag target, a 20 s CPU budget or (10% sample) a 5*10^6 line '
     'budget is a violation. ~4*10^5 calls per quick run.',
     'Trusted: the value-shape domain in ASSUMPTIONS; termination restated as CPU/step budgets.')
+reg('C09', 'runtime monitoring: metamorphic respelling monitor (IR equality + result equality of the real compile/select)',
+    'Valid selectors of a broad grammar are rendered canonically and respelled at every token slot by every '
+    'applicable lexical rule (whitespace/comment runs, hex and character escapes incl. in pseudo-class names, quote '
+    'style or bare identifier, letter case), singly and in random combinations; the real compile() must return an '
+    'equal selector structure and the same elements on two probe documents. ~2.5*10^5 effective respellings per quick run.',
+    'Trusted: the respeller stays inside the rewrite rules the statement lists (domain decisions in DESIGN.md section 3: '
+    'literal :-- prefix of custom names, no lone-CR escape terminator, escapes not applied to An+B keywords/of/ltr/rtl/flags).')
